@@ -823,11 +823,80 @@ def gen_form_table():
     return rows
 
 
+def gen_migrate_table():
+    """supla_esp_cfg_init: the field copies of the 5 -> 6 migration (common part, 5A branch, 5B branch) and the fields the 6 -> 7
+    step carries over -> Gen/MigrateTable.lean.  Fails closed on statements it does not recognise inside the migration block."""
+    src = open(os.path.join(C.REPO, "src/user/supla_esp_cfg.c")).read()
+    src = re.sub(r"//[^\n]*", "", src)
+    n = re.sub(r"\s+", " ", src)
+    try:
+        blk = n[n.index("SuplaEspCfg_old_v6 new; memset(&new, 0, sizeof(SuplaEspCfg_old_v6));"):]
+        blk = blk[:blk.index("memset(&supla_esp_cfg, 0, sizeof(SuplaEspCfg)); memcpy(&supla_esp_cfg, &new, sizeof(SuplaEspCfg_old_v6));")]
+        head, rest = blk.split("if (memcmp(oldB->AuthKey, AuthKey, SUPLA_AUTHKEY_SIZE) == 0", 1)
+        cond, rest = rest.split(") ) ) {", 1)
+        brA, brB = rest.split("} else {", 1)
+        brB = brB.rsplit("}", 1)[0]
+    except ValueError:
+        raise ExtractError("supla_esp_cfg.c: 5->6 migration block not recognised")
+    if "strchr(oldA->Email, '@') && strchr(oldA->Email, '.')" not in cond:
+        raise ExtractError("supla_esp_cfg.c: 5A/5B discrimination not recognised")
+
+    def copies(txt, what):
+        out = []
+        t = txt
+        for m in re.finditer(r"memcpy\(&?new\.(\w+), &?old([AB])->(\w+), ([^;]+)\);", txt):
+            out.append((m.group(1), 0 if m.group(2) == "A" else 1, m.group(3), m.group(4)))
+            t = t.replace(m.group(0), "", 1)
+        for m in re.finditer(r"new\.(\w+) = old([AB])->(\w+) ?;", txt):
+            out.append((m.group(1), 0 if m.group(2) == "A" else 1, m.group(3), "sizeof(((SuplaEspCfg_old_v6*)0)->%s)" % m.group(1)))
+            t = t.replace(m.group(0), "", 1)
+        t = re.sub(r"supla_log\([^;]*\);", "", t)
+        t = re.sub(r"new\.Trigger = 0;", "", t)
+        t = t.replace("SuplaEspCfg_old_v6 new; memset(&new, 0, sizeof(SuplaEspCfg_old_v6)); memcpy(new.TAG, TAG, 6); new.TAG[5] = 6;", "")
+        if t.strip():
+            raise ExtractError("supla_esp_cfg.c: unrecognised statement in the %s part of the migration: %s" % (what, t.strip()[:80]))
+        return out
+    common, a, b = copies(head, "common"), copies(brA, "5A"), copies(brB, "5B")
+    try:
+        s67 = n[n.index("SuplaEspCfg new; memcpy(&new, old, sizeof(SuplaEspCfg_old_v6)); new.TAG[5] = 7;"):]
+        s67 = s67[:s67.index("memcpy(&supla_esp_cfg, &new, sizeof(SuplaEspCfg));")]
+    except ValueError:
+        raise ExtractError("supla_esp_cfg.c: 6->7 migration block not recognised")
+    kept = re.findall(r"new\.(\w+\[\d\]) = old->(\w+\[\d\]);", s67)
+    zeroed = re.findall(r"memset\(&new\.(\w+), 0,", s67)
+    if any(x != y for x, y in kept):
+        raise ExtractError("supla_esp_cfg.c: 6->7 step copies a field to another one")
+
+    body = ""
+    allc = [("c", common), ("a", a), ("b", b)]
+    for tag, cs in allc:
+        for k, c in enumerate(cs):
+            body += 'P("mg_%s%d_len", %s); P("mg_%s%d_dst", sizeof(((SuplaEspCfg_old_v6*)0)->%s)); P("mg_%s%d_src", sizeof(((SuplaEspCfg_old_v5%s*)0)->%s));\n' % (
+                tag, k, c[3], tag, k, c[0], tag, k, "A" if c[1] == 0 else "B", c[2])
+    pv = run_probe("p_mig", body, includes_c=["supla_esp.h", "supla_esp_cfg.h"])
+
+    def lst(cs, tag):
+        return "[" + ", ".join('{ dst := "%s", src := %d, fld := "%s", len := %s, dstLen := %s, srcLen := %s }' % (
+            c[0], c[1], c[2], pv["mg_%s%d_len" % (tag, k)], pv["mg_%s%d_dst" % (tag, k)], pv["mg_%s%d_src" % (tag, k)]) for k, c in enumerate(cs)) + "]"
+    out = ["/- GENERATED by tools/extract.py from /repo/src/user/supla_esp_cfg.c (supla_esp_cfg_init) - do not edit -/",
+           "import SuplaVerif.Model.Migrate", "namespace SuplaVerif.Gen", "",
+           "def migCommon : List FieldCopy := " + lst(common, "c"),
+           "def migA : List FieldCopy := " + lst(a, "a"),
+           "def migB : List FieldCopy := " + lst(b, "b"),
+           "/-- 6 -> 7: the record is copied whole, these arrays are zeroed ... -/",
+           "def mig67Zeroed : List String := [" + ", ".join('"%s"' % z for z in zeroed) + "]",
+           "/-- ... and these elements are carried over -/",
+           "def mig67Kept : List String := [" + ", ".join('"%s"' % k for k, _ in kept) + "]",
+           "", "end SuplaVerif.Gen", ""]
+    write_if_changed(os.path.join(C.LEAN, "SuplaVerif", "Gen", "MigrateTable.lean"), "\n".join(out))
+
+
 def main_quiet():
     emit_consts()
     gen_getdata()
     gen_html()
     gen_form_table()
+    gen_migrate_table()
     emit_root()
 
 
